@@ -8,6 +8,7 @@ import (
 	"io"
 	"net"
 	"sync"
+	"sync/atomic"
 	"time"
 
 	kmip "github.com/smira/go-kmip"
@@ -201,5 +202,80 @@ func c15SlowHandshake(r *Result) {
 		if o.obs != "answered" {
 			r.find(Finding{Kind: "violation", What: "the TLS handshake and the first request did not each get a fresh read deadline", Input: o.key, Expect: "answered", Actual: o.obs})
 		}
+	}
+}
+
+// c15StalledWrite: the peer sends a complete request and then stops READING: the response cannot be written. With
+// WriteTimeout W the write deadline armed before the response expires and "such a peer is disconnected": the connection is
+// closed at about W - whatever ReadTimeout is (zero included) - and a further request the peer may have queued is not
+// processed. With WriteTimeout zero no deadline is set and the server waits.
+func c15StalledWrite(r *Result) {
+	const W = 200 * time.Millisecond
+	for _, c := range []struct {
+		rt, wt time.Duration
+		second bool
+	}{{0, W, false}, {20 * W, W, false}, {0, W, true}, {W, W, true}, {0, 0, false}} {
+		key := fmt.Sprintf("peer stops reading after its %s: ReadTimeout=%v WriteTimeout=%v", map[bool]string{false: "first request", true: "first exchange (second response stalls, a third request is queued)"}[c.second], c.rt, c.wt)
+		crumb("C15 " + key)
+		r.eval(key, true)
+		var calls int32
+		s := &kmip.Server{ReadTimeout: c.rt, WriteTimeout: c.wt}
+		s.Handle(kmip.OPERATION_ACTIVATE, func(ctx *kmip.RequestContext, item *kmip.RequestBatchItem) (interface{}, error) {
+			atomic.AddInt32(&calls, 1)
+			return kmip.ActivateResponse{UniqueIdentifier: "x"}, nil
+		})
+		sc, cc := rec.Pipe()
+		rc := rec.NewConn(sc, 1)
+		rc.StallWriteFrom = 1
+		if c.second {
+			rc.StallWriteFrom = 2
+		}
+		l := rec.NewListener()
+		l.Push(rec.AcceptStep{Conn: rc})
+		init := make(chan struct{})
+		ret := make(chan error, 1)
+		go func() { ret <- s.Serve(l, init) }()
+		<-init
+		_ = cc.SetDeadline(time.Now().Add(6 * time.Second))
+		req := kmip.Request{Header: kmip.RequestHeader{Version: kmip.ProtocolVersion{Major: 1, Minor: 4}, BatchCount: 1},
+			BatchItems: []kmip.RequestBatchItem{{Operation: kmip.OPERATION_ACTIVATE, RequestPayload: kmip.ActivateRequest{UniqueIdentifier: "a"}}}}
+		enc := kmip.NewEncoder(cc)
+		t0 := time.Now()
+		_ = enc.Encode(&req)
+		want := 1
+		if c.second {
+			var resp kmip.Response
+			_ = kmip.NewDecoder(cc).Decode(&resp)
+			t0 = time.Now()
+			_ = enc.Encode(&req) // its response stalls
+			_ = enc.Encode(&req) // queued behind it: must never be processed
+			want = 2
+		}
+		closedAfter := time.Duration(-1)
+		select {
+		case <-rc.Closed():
+			closedAfter = time.Since(t0)
+		case <-time.After(8 * W):
+		}
+		obs := fmt.Sprintf("closed-by-the-server=%v handler-calls=%d", closedAfter >= 0, atomic.LoadInt32(&calls))
+		exp := fmt.Sprintf("closed-by-the-server=true handler-calls=%d", want)
+		if c.wt == 0 {
+			exp = fmt.Sprintf("closed-by-the-server=false handler-calls=%d", want)
+		}
+		if obs != exp {
+			r.find(Finding{Kind: "violation", What: "a peer that stalls while the response is being written was not treated as the write deadline prescribes", Input: key, Expect: exp, Actual: fmt.Sprintf("%s (after %v)", obs, closedAfter.Round(time.Millisecond))})
+		} else if c.wt != 0 && (closedAfter < c.wt/2 || closedAfter > 4*c.wt) {
+			r.find(Finding{Kind: "violation", What: "the stalled peer was disconnected, but not at the write deadline", Input: key, Expect: fmt.Sprintf("about %v", c.wt), Actual: closedAfter.Round(time.Millisecond).String()})
+		}
+		cc.Close()
+		rc.Close()
+		ctx, cancel := context.WithTimeout(context.Background(), 3*time.Second)
+		_ = s.Shutdown(ctx)
+		cancel()
+		select {
+		case <-ret:
+		case <-time.After(3 * time.Second):
+		}
+		r.Stats["stalled-write-scenarios"]++
 	}
 }
